@@ -102,6 +102,23 @@ CLAIMED = {
         "exactly and compares.",
         "Dyadic kernels/amounts so the expected value is exact; relative tolerance 2e-5.",
         "DESIGN.md section 3 (C13)"),
+    "C17": (
+        "TLA+ state machines of the RTL arrangement, random ensemble, all-pairs cover and Crystals allocation/placement "
+        "with every random choice nondeterministic, model-checked by TLC; real structures and hook-recorded steps "
+        "validated by TLC",
+        "TLC explores every outcome of both np.random shuffles of _get_rtl_structure (and the swap passes) for several "
+        "input-group instances, every choice of the random ensemble and every order of pairs of the cover, and every "
+        "small integer score table of the Crystals use allocation / greedy placement: each lattice gets lattice_rank "
+        "inputs, every feature is used, RTL usage counts differ by at most one, increasing inputs sit on monotone "
+        "slots, no repeated feature in a random-ensemble lattice, every pair covered, the allocation never divides 0/0 "
+        "and hands out exactly num_lattices*rank uses, swap loops terminate. Real RTL layers (with the guarded hook "
+        "recording shuffle1/shuffle2/swap result), set_random_lattice_ensemble, the pair cover and "
+        "_get_final_crystal_lattices (scores injected at _get_torsions_and_laplacians) run over seeds / score tables; "
+        "TLC validates each recorded structure (contracts) and each step against the spec (drift), output labelling and "
+        "determinism in the seed.",
+        "Crystals swap optimisation is not modelled (it only exchanges entries, preserving the contract); np.argsort tie "
+        "order is treated as nondeterministic; the repaired 0/0 defect is listed as fixed.",
+        "DESIGN.md section 3 (C17)"),
     "C19": (
         "TLA+ transcription of custom_reduce_prod's gradient formula checked equal to the product's derivative for "
         "every zero pattern by TLC; real tf.GradientTape gradients validated by TLC",
